@@ -9,7 +9,7 @@ j=src.index('Qed.',i)
 s=src[:j]+'\nShow. Abort.\n'
 out='/tmp/_show_%d.v'%os.getpid()
 open(out,'w').write(s)
-r=subprocess.run(['coqc','-Q','theories','Bac','-Q','gen','BacGen','-Q','props','BacProps',out],capture_output=True,text=True,cwd='/verif/coq')
+r=subprocess.run(['coqc','-Q','theories','Bac','-Q','gen','BacGen','-Q','props','BacProps',out],capture_output=True,text=True,cwd=os.path.join(os.path.dirname(os.path.dirname(os.path.abspath(__file__))),'coq'))
 print((r.stdout+r.stderr)[-int(sys.argv[3]) if len(sys.argv)>3 else -6000:])
 for e in ('.v','.vo','.glob','.vok','.vos'):
     try: os.remove(out[:-2]+e)
